@@ -86,21 +86,23 @@ class Injector:
                 return getattr(real, name)
         return H()
 
-    def gzip_open(self, path, mode='rb', compresslevel=9, *a, **k):
-        self._maybe_fail(path, mode)
-        return self.wrap(gzip.open(path, mode, compresslevel, *a, **k))
+    def install(self, root):
+        """Every way of opening a file below `root` - open(), gzip.open(), gzip.GzipFile(), io wrappers - ends in builtins.open: the fault
+        plan is applied there, so the injection does not depend on how the code under test spells its open call."""
+        self.root = os.path.abspath(root) + os.sep
+        self.real_open = builtins.open
+        inj = self
 
-    def plain_open(self, path, mode='r', *a, **k):
-        self._maybe_fail(path, mode)
-        return self.wrap(builtins.open(path, mode, *a, **k))
+        def opener(file, mode='r', *a, **k):
+            if isinstance(file, (str, bytes, os.PathLike)) and os.path.abspath(os.fsdecode(file)).startswith(inj.root):
+                path = os.fsdecode(file)
+                inj._maybe_fail(path, mode)
+                return inj.wrap(inj.real_open(file, mode, *a, **k))
+            return inj.real_open(file, mode, *a, **k)
+        builtins.open = opener
 
-
-class FakeGzip:
-    def __init__(self, inj):
-        self.open = inj.gzip_open
-
-    def __getattr__(self, name):
-        return getattr(gzip, name)
+    def uninstall(self):
+        builtins.open = self.real_open
 
 
 def read_back(path, method):
@@ -117,9 +119,7 @@ def execute(hl_mod, d, seq, maxHandles, pruneEvery, method, plan, continue_after
     """Runs one write history against a fresh HandleLimiter under a fault plan.
     Returns (inj, history{path:[data]}, raised[(idx, path, exc, legit)], contents{path:str|None}, error or None)"""
     inj = Injector(dict(plan, permanent=os.path.join(d, plan['permanent']) if plan.get('permanent') else None))
-    old_gzip = hl_mod.gzip
-    hl_mod.gzip = FakeGzip(inj)
-    hl_mod.open = inj.plain_open
+    inj.install(d)
     hist = {}
     raised = []
     import io
@@ -142,8 +142,7 @@ def execute(hl_mod, d, seq, maxHandles, pruneEvery, method, plan, continue_after
         with contextlib.redirect_stdout(io.StringIO()):
             h.close()
     finally:
-        hl_mod.gzip = old_gzip
-        del hl_mod.open
+        inj.uninstall()
     contents = {}
     err = None
     for fname in sorted(set(f for f, _ in seq)):
